@@ -58,6 +58,7 @@ func (d *numDom) Call(e *Engine, st *State, site ssa.CallInstruction, callee *ss
 			badRes[i] = zeroAV(rt)
 		}
 		bad := st.clone()
+		bad.event(Event{Kind: "coerce-failed", Fn: callee, Args: args, Res: badRes})
 		st.event(Event{Kind: "coerced", Fn: callee, Args: args})
 		return []CallOut{{St: st, Res: okRes}, {St: bad, Res: badRes}}, true
 	}
